@@ -201,6 +201,12 @@ func runC13Cell(e *core.Env, r *rand.Rand, c *Carrier, scheme string, secure boo
 	sc := genDeliveryScript(r, kind, true, false)
 	sc.ReqMD = genMD(r, 3, false)
 	sc.ReqMD["shared-key"] = []string{"caller-1", "caller-2"}
+	if r.Intn(2) == 0 {
+		// metadata a gateway forwards from its own callers: to the server these are ordinary pairs, what it reports
+		// about the peer comes from the connection
+		k := pick(r, "x-forwarded-for", "x-real-ip", "forwarded", "x-forwarded-proto", "x-forwarded-host", "via")
+		sc.ReqMD[k] = []string{pick(r, "203.0.113.9", "203.0.113.9, 10.0.0.1", "for=198.51.100.17;proto=https", "https", "[2001:db8::1]:443")}
+	}
 	creds := &testCreds{secure: secure}
 	switch ck {
 	case "disjoint":
@@ -297,6 +303,10 @@ func runC13Cell(e *core.Env, r *rand.Rand, c *Carrier, scheme string, secure boo
 	unix := strings.HasSuffix(c.Name, "-unix")
 	if p := run.HandlerPeer; p == nil || p.Addr == nil || (p.Addr.String() == "" && !unix) {
 		e.Violate("peer/handler-addr/"+scheme, cell+": handler peer has no address", w)
+	} else if ra, known := remoteOf(c, run.ID); known && !unix && p.Addr.String() != ra {
+		e.Violate("peer/handler-addr-wrong/"+scheme, fmt.Sprintf("%s: the handler's peer reports %q, the request arrived on a connection from %q", cell, p.Addr.String(), ra), w)
+	} else if !wantTLS && c.HTTP && p.AuthInfo != nil {
+		e.Violate("peer/handler-tls-on-plain", fmt.Sprintf("%s: the handler's peer has auth info %T on a plain connection", cell, p.AuthInfo), w)
 	} else if wantTLS {
 		if _, ok := p.AuthInfo.(credentials.TLSInfo); !ok {
 			e.Violate("peer/handler-tls", fmt.Sprintf("%s: handler peer auth info is %T on a TLS connection", cell, p.AuthInfo), w)
@@ -323,6 +333,18 @@ func runC13Cell(e *core.Env, r *rand.Rand, c *Carrier, scheme string, secure boo
 }
 
 var c13ReusedPeer = new(peer.Peer)
+
+func remoteOf(c *Carrier, id string) (string, bool) {
+	if c.RemoteOf == nil {
+		return "", false
+	}
+	v, ok := c.RemoteOf.Load(id)
+	if !ok {
+		return "", false
+	}
+	c.RemoteOf.Delete(id)
+	return v.(string), true
+}
 
 func btoi(b bool) int {
 	if b {
